@@ -11,8 +11,24 @@
 (* it and followed by the code's mitigation:                               *)
 (*                                                                         *)
 (*   StartRun   locale, environment size: chosen, read by nothing          *)
-(*              (numbers are parsed/printed by pstrtod/pdtoa, paths and    *)
-(*              options come from argv only)                               *)
+(*              (numbers are parsed/printed by pstrtod/pdtoa, options come *)
+(*              from argv only).  The SPELLING of the working directory:   *)
+(*              the process may have reached its directory through a       *)
+(*              symbolic link and $PWD may be unset, name the directory by *)
+(*              its real path, by the link, by dir/../dir, or be garbage.  *)
+(*              Filename::make_absolute() of a relative -oc/-od/-oh name   *)
+(*              (interrogate.cxx, option parsing) uses Filename::get_cwd() *)
+(*              = getcwd(3): the canonical name of the DIRECTORY (an       *)
+(*              input), whatever its spelling in the environment.  The     *)
+(*              -python-native code file embeds that absolute name in its  *)
+(*              `#line N "file"` directive; the banner comment embeds the  *)
+(*              command line as given; nothing else embeds a file name.    *)
+(*              CwdSource = "PWD" documents a get_cwd() that trusts $PWD   *)
+(*              (Repro_pwd.cfg: TLC reports OutputPure violated).          *)
+(*              HOME, TMPDIR, XDG_DATA_HOME, PANDA_ROOT are consulted only *)
+(*              by Filename's home/temp/appdata lookups, which the tools   *)
+(*              never call; POSIXLY_CORRECT stops option parsing at the    *)
+(*              first file name (options always precede it here).          *)
 (*   Alloc      rank : overloads -> 1..n, the relative heap address order  *)
 (*              of the FunctionRemap objects                               *)
 (*   SortStep   write_function_forset: the std::set<FunctionRemap*> of one *)
@@ -45,6 +61,10 @@ CONSTANTS Cats1, MaxOver1,   \* categories / number of overloads of one-paramete
           Cats2, MaxOver2,   \* the same for two-parameter functions
           Time,              \* values of the clock and of SOURCE_DATE_EPOCH (0 = unset)
           Locales, EnvSizes, \* hidden inputs that nothing reads
+          PwdValues,         \* hidden: $PWD -- subset of {"unset", "real", "link", "dotdot", "garbage"}
+          CwdVia,            \* hidden: how the process reached its directory -- {"real", "link"}
+          OcNames,           \* INPUT: how the output files are named -- subset of {"rel", "abs"}
+          CwdSource,         \* "getcwd" | "PWD"
           TieBreak           \* "signature" | "none"
 
 (* Parameter-type categories.  The position in this table is the category id; the table is  *)
@@ -67,7 +87,8 @@ ThisKey == 20   \* get_type_sort of the synthesized `this` parameter of a method
 
 VARIABLES ov,        \* the overload set: set of tuples of category ids (the input)
           phase,     \* "build" | "alloc" | "sort" | "ident" | "write" | "done"
-          hid,       \* hidden inputs nothing reads: [loc, env]
+          oc,        \* input: "rel" | "abs" spelling of the -oc/-od/-oh arguments ("" while building)
+          cwdname,   \* the name this run uses for its working directory (what it made of the hidden spelling)
           rank,      \* hidden: heap address rank of each overload's FunctionRemap
           emitted,   \* order in which the overloads are tried in the generated wrapper
           listed,    \* order in which a slot wrapper lists its overloads (doc comment, messages)
@@ -75,7 +96,7 @@ VARIABLES ov,        \* the overload set: set of tuples of category ids (the inp
           epoch,     \* SOURCE_DATE_EPOCH of this run (0 = unset)
           outs       \* outputs of the finished runs
 
-vars == <<ov, phase, hid, rank, emitted, listed, ident, epoch, outs>>
+vars == <<ov, oc, phase, cwdname, rank, emitted, listed, ident, epoch, outs>>
 
 -----------------------------------------------------------------------------
 (* Orders on overloads *)
@@ -145,10 +166,15 @@ ImportOrder(t) == SetToSortSeq(ExtTypes, LAMBDA a, b : a < b \/ (a = b /\ t[a] <
 ImportsPure == \A t1, t2 \in Ranks(ExtTypes) : ImportOrder(t1) = ImportOrder(t2)
 
 -----------------------------------------------------------------------------
+\* the name get_cwd() returns: getcwd(3) names the directory itself; a get_cwd() that trusts $PWD
+\* returns whatever spelling of the directory the environment carries (v, how the shell got
+\* there, is not visible to the process at all)
+CwdName(p, v) == IF CwdSource = "PWD" /\ p \in {"real", "link", "dotdot"} THEN p ELSE "real"
+
 Arity == IF ov = {} THEN 0 ELSE Len(CHOOSE o \in ov : TRUE)
 N == Cardinality(ov)
 
-Init == /\ ov = {} /\ phase = "build" /\ hid = <<>> /\ rank = <<>> /\ emitted = <<>> /\ listed = <<>>
+Init == /\ ov = {} /\ oc = "" /\ phase = "build" /\ cwdname = "" /\ rank = <<>> /\ emitted = <<>> /\ listed = <<>>
         /\ ident = 0 /\ epoch = 0 /\ outs = <<>>
 
 \* overloads are appended in signature order, so every SET is built exactly once
@@ -157,37 +183,41 @@ AddOverload(o) ==
   /\ \A p \in ov : Len(p) = Len(o) /\ SigLess(p, o)
   /\ N < (IF Len(o) = 1 THEN MaxOver1 ELSE MaxOver2)
   /\ ov' = ov \cup {o}
-  /\ UNCHANGED <<phase, hid, rank, emitted, listed, ident, epoch, outs>>
+  /\ UNCHANGED <<oc, phase, cwdname, rank, emitted, listed, ident, epoch, outs>>
 
 Close == /\ phase = "build" /\ ov # {}
+         /\ \E n \in OcNames : oc' = n
          /\ phase' = "start"
-         /\ UNCHANGED <<ov, hid, rank, emitted, listed, ident, epoch, outs>>
+         /\ UNCHANGED <<ov, cwdname, rank, emitted, listed, ident, epoch, outs>>
 
 StartRun == /\ phase = "start"
-            /\ \E l \in Locales, e \in EnvSizes : hid' = [loc |-> l, env |-> e]
+            /\ \E l \in Locales, e \in EnvSizes, p \in PwdValues, v \in CwdVia : cwdname' = CwdName(p, v)
             /\ phase' = "alloc"
-            /\ UNCHANGED <<ov, rank, emitted, listed, ident, epoch, outs>>
+            /\ UNCHANGED <<ov, oc, rank, emitted, listed, ident, epoch, outs>>
 
 Alloc == /\ phase = "alloc"
          /\ \E r \in Ranks(ov) : rank' = r
          /\ phase' = "sort"
-         /\ UNCHANGED <<ov, hid, emitted, listed, ident, epoch, outs>>
+         /\ UNCHANGED <<ov, oc, cwdname, emitted, listed, ident, epoch, outs>>
 
 SortStep == /\ phase = "sort"
             /\ emitted' = Sorted(TieBreak, ov, rank)
             /\ listed' = IF TieBreak = "signature" THEN SigOrder(ov) ELSE PtrOrder(ov, rank)
             /\ phase' = "ident"
-            /\ UNCHANGED <<ov, hid, rank, ident, epoch, outs>>
+            /\ UNCHANGED <<ov, oc, cwdname, rank, ident, epoch, outs>>
 
 Ident == /\ phase = "ident"
          /\ \E now \in Time, ep \in {0} \cup Time :
               /\ epoch' = ep
               /\ ident' = IF ep # 0 THEN ep ELSE now
          /\ phase' = "write"
-         /\ UNCHANGED <<ov, hid, rank, emitted, listed, outs>>
+         /\ UNCHANGED <<ov, oc, cwdname, rank, emitted, listed, outs>>
 
 \* the three output files of a run
-Out == [code |-> [order |-> emitted, doc |-> listed, ident |-> ident,
+\* the file name in the `#line` directive of the code file
+LineName == IF oc = "abs" THEN <<"abs">> ELSE <<cwdname, "rel">>
+
+Out == [code |-> [order |-> emitted, doc |-> listed, ident |-> ident, banner |-> oc, line |-> LineName,
                  imports |-> ImportOrder([x \in ExtTypes |-> x])],
         db   |-> [funcs |-> SigOrder(ov), manifests |-> BucketOrder(Macros), ident |-> ident],
         text |-> [funcs |-> SigOrder(ov)],
@@ -196,8 +226,8 @@ Out == [code |-> [order |-> emitted, doc |-> listed, ident |-> ident,
 Finish == /\ phase = "write"
           /\ outs' = Append(outs, Out)
           /\ phase' = IF Len(outs) = 0 THEN "start" ELSE "done"
-          /\ hid' = <<>> /\ rank' = <<>> /\ emitted' = <<>> /\ listed' = <<>> /\ ident' = 0 /\ epoch' = 0
-          /\ UNCHANGED ov
+          /\ cwdname' = "" /\ rank' = <<>> /\ emitted' = <<>> /\ listed' = <<>> /\ ident' = 0 /\ epoch' = 0
+          /\ UNCHANGED <<ov, oc>>
 
 Overloads == {<<c>> : c \in Cats1} \cup {<<c, d>> : c, d \in Cats2}
 
@@ -209,7 +239,7 @@ Spec == Init /\ [][Next]_vars
 -----------------------------------------------------------------------------
 (* Properties *)
 
-Strip(o) == [code |-> <<o.code.order, o.code.doc>>, db |-> <<o.db.funcs, o.db.manifests>>, text |-> o.text]
+Strip(o) == [code |-> <<o.code.order, o.code.doc, o.code.banner, o.code.line>>, db |-> <<o.db.funcs, o.db.manifests>>, text |-> o.text]
 
 \* C14: with the same SOURCE_DATE_EPOCH two runs give identical files; otherwise the files
 \* differ in the identifier only, and it is the same number in code and database of one run
@@ -220,6 +250,10 @@ OutputPure ==
        /\ (outs[1].epoch # 0 /\ outs[1].epoch = outs[2].epoch) => outs[1] = outs[2]
 
 ASSUME ImportsPure
+
+\* what the code file embeds of its own name is a function of the arguments and the directory
+EmbedsArgumentsOnly ==
+  \A i \in 1..Len(outs) : outs[i].code.line = (IF oc = "abs" THEN <<"abs">> ELSE <<"real", "rel">>)
 
 \* the identifier is the epoch when one is given
 EpochWins == \A i \in 1..Len(outs) : outs[i].epoch # 0 => outs[i].code.ident = outs[i].epoch
